@@ -78,25 +78,26 @@ theorem pumpAll_is_run (ids : List Nat) :
       rw [hw2]
       simp [List.append_assoc]
 
-/-- **pump_is_run**: a scripted step is a run of the machine on `op` followed by `write`
-operations; its frames are exactly the client events of that run. -/
+/-- **pump_is_run**: a scripted step is a run of the machine on `op`, a wake-up and `write`
+operations. -/
 theorem pump_is_run (st : State) (hist : List Event) (op : Op) :
     ∃ ws : List Op, (∀ o ∈ ws, ∃ id, o = Op.write id) ∧
-      (runFrom st hist (op :: ws)).1 = (scriptStep st op).1 := by
-  obtain ⟨ws, hw1, hw2⟩ := pumpAll_is_run ((step st op).1.streams.map (·.id)) (step st op).1
-    (hist ++ stepEvents st op)
+      (runFrom st hist (op :: Op.wake :: ws)).1 = (scriptStep st op).1 := by
+  generalize hst1 : (step (step st op).1 Op.wake).1 = st1
+  generalize hh1 : hist ++ stepEvents st op ++ stepEvents (step st op).1 Op.wake = hist1
+  obtain ⟨ws, hw1, hw2⟩ := pumpAll_is_run (st1.streams.map (·.id)) st1 hist1
   obtain ⟨ws', hw1', hw2'⟩ := pumpAll_is_run
-    (((pumpAll (step st op).1 ((step st op).1.streams.map (·.id))).1.streams.drop (step st op).1.streams.length).map (·.id))
-    (pumpAll (step st op).1 ((step st op).1.streams.map (·.id))).1
-    (hist ++ stepEvents st op ++ (pumpAll (step st op).1 ((step st op).1.streams.map (·.id))).2.map Event.c)
+    (((pumpAll st1 (st1.streams.map (·.id))).1.streams.drop st1.streams.length).map (·.id))
+    (pumpAll st1 (st1.streams.map (·.id))).1
+    (hist1 ++ (pumpAll st1 (st1.streams.map (·.id))).2.map Event.c)
   refine ⟨ws ++ ws', ?_, ?_⟩
   · intro o ho
     rcases List.mem_append.mp ho with h | h
     · exact hw1 o h
     · exact hw1' o h
   · simp only [runFrom, scriptStep]
-    unfold stepEvents at hw2 hw2'
-    rw [runFrom_append, hw2]
+    unfold stepEvents at hh1
+    rw [hst1, hh1, runFrom_append, hw2]
     simp only
     rw [hw2']
 
